@@ -230,6 +230,14 @@ class ShapeInterp:
             if isinstance(a, (ast.Tuple, ast.List)):
                 return arr(*[self.dim_of_len(x) for x in a.elts])
             return arr(self.dim_of_len(a))
+        if fn in ("np.full", "np.ones", "np.zeros", "np.empty") and args and isinstance(args[0], ast.Name) and \
+                args[0].id in self.__dict__.get("prod_names", ()):
+            return arr(("prod",))
+        if fn in ("np.multiply.outer", "np.outer") and len(args) == 2:
+            a, b = self.ev(args[0]), self.ev(args[1])
+            if a[0] == "arr" and b[0] == "arr" and (fn == "np.multiply.outer" or (len(a[1]) == 1 and len(b[1]) == 1)):
+                return arr(*(a[1] + b[1]))
+            return UNKNOWN
         if fn == "np.full" and args:
             a = args[0]
             if isinstance(a, ast.Call) and norm(a.func) == "np.prod" and norm(a.args[0]) in self.shape_names:
@@ -333,6 +341,12 @@ class ShapeInterp:
             v = self.ev(s.value)
             for t in s.targets:
                 if isinstance(t, ast.Name):
+                    pn = self.__dict__.setdefault("prod_names", set())
+                    if isinstance(s.value, ast.Call) and norm(s.value.func) in ("np.prod", "math.prod") and s.value.args \
+                            and norm(s.value.args[0]) in self.shape_names | {"self.shape", "self._shape"}:
+                        pn.add(t.id)   # a local holding the total number of points
+                    else:
+                        pn.discard(t.id)
                     c = self.const(s.value)
                     if c is not None and v in (SCALAR, UNKNOWN):
                         self.consts[t.id] = c
@@ -388,10 +402,11 @@ class ShapeInterp:
         elif isinstance(s, ast.Raise):
             return "stop"
         elif isinstance(s, ast.For) and isinstance(s.target, ast.Name) and isinstance(s.iter, ast.Call) and \
-                norm(s.iter.func) == "range" and len(s.iter.args) == 1 and self.const(s.iter.args[0]) is not None \
-                and 0 <= self.const(s.iter.args[0]) <= 8 and not s.orelse:
+                norm(s.iter.func) == "range" and 1 <= len(s.iter.args) <= 3 and not s.iter.keywords and \
+                all(self.const(a) is not None and abs(self.const(a)) <= 8 for a in s.iter.args) and not s.orelse \
+                and (len(s.iter.args) < 3 or self.const(s.iter.args[2]) != 0):
             # a loop over the (known) dimensionality is unrolled
-            for i in range(self.const(s.iter.args[0])):
+            for i in range(*[self.const(a) for a in s.iter.args]):
                 self.consts[s.target.id] = i
                 self.env.pop(s.target.id, None)
                 if self.run(s.body) == "stop":
@@ -868,6 +883,7 @@ class SeqInterp:
         self.env = {}
         self.shape_texts = set(shape_texts)
         self.ret = None
+        self.divisors = []   # right operands of the floor divisions executed, in execution order
 
     # polynomials
     @staticmethod
@@ -923,6 +939,10 @@ class SeqInterp:
             v = self.ev(e.operand)
             if isinstance(v, dict):
                 return {m: -k for m, k in v.items()}
+        if isinstance(e, ast.BinOp) and isinstance(e.op, ast.FloorDiv):
+            # a coordinate peeled off the flat index: only the divisor matters here
+            self.divisors.append(self.ev(e.right))
+            raise self.Undecided("quotient of the (unknown) flat index")
         if isinstance(e, ast.BinOp) and isinstance(e.op, (ast.Add, ast.Sub, ast.Mult)):
             a, b = self.ev(e.left), self.ev(e.right)
             if isinstance(a, dict) and isinstance(b, dict):
@@ -996,7 +1016,18 @@ class SeqInterp:
                         self.env.pop(t.id, None)
                 elif isinstance(t, ast.Subscript) and isinstance(t.value, ast.Name) and t.value.id in self.env:
                     seq = list(self.env[t.value.id])
-                    seq[self.const_int(t.slice)] = self.ev(s.value)
+                    if isinstance(t.slice, ast.Slice):
+                        lo, hi, st = (self.const_int(x) if x is not None else None
+                                      for x in (t.slice.lower, t.slice.upper, t.slice.step))
+                        val = self.ev(s.value)
+                        n_sel = len(seq[lo:hi:st])
+                        if not isinstance(val, list):
+                            val = [val] * n_sel   # a scalar is broadcast over the slice
+                        if len(val) != n_sel:
+                            raise self.Undecided(f"slice store of {len(val)} values into {n_sel} places: {norm(s)[:60]}")
+                        seq[lo:hi:st] = val
+                    else:
+                        seq[self.const_int(t.slice)] = self.ev(s.value)
                     self.env[t.value.id] = seq
                 elif isinstance(t, ast.Tuple) and isinstance(s.value, ast.Tuple) and len(t.elts) == len(s.value.elts):
                     for a, b in zip(t.elts, s.value.elts):
@@ -1010,6 +1041,16 @@ class SeqInterp:
                 bounds = [self.const_int(a) for a in s.iter.args]
                 for i in range(*bounds):
                     self.env[s.target.id] = self.c(i)
+                    self.run(s.body)
+            elif isinstance(s, ast.For) and isinstance(s.target, ast.Name):
+                try:
+                    seq = self.ev(s.iter)
+                except self.Undecided:
+                    seq = None
+                if not isinstance(seq, list):
+                    raise self.Undecided(f"loop over `{norm(s.iter)[:40]}`")
+                for x in seq:
+                    self.env[s.target.id] = x
                     self.run(s.body)
             elif isinstance(s, ast.If):
                 t = norm(s.test)
